@@ -2131,3 +2131,39 @@ func ruleObserversPure(c *Ctx, r *Report, pkgs map[string]bool) int {
 	}
 	return n
 }
+
+// ruleSeekForward (G-SEEK) — a relative seek whose distance derives from the declared box size is preceded by a test
+// that the distance is not negative (a size >= 2^63 turns negative as int64 and moves the reader backwards).
+func ruleSeekForward(c *Ctx, r *Report) int {
+	n := 0
+	for _, f := range libFuncs(c, func(f *ssa.Function) bool { return strings.HasPrefix(SSAFuncName(f), "mp4.") }) {
+		for _, b := range f.Blocks {
+			for _, ins := range b.Instrs {
+				call, ok := ins.(*ssa.Call)
+				if !ok || !call.Call.IsInvoke() || call.Call.Method.Name() != "Seek" || len(call.Call.Args) != 2 {
+					continue
+				}
+				wh, ok := constSet(call.Call.Args[1], 0)
+				if !ok || len(wh) != 1 || wh[0] != 1 { // io.SeekCurrent
+					continue
+				}
+				dist := call.Call.Args[0]
+				if !sliceHas(backSlice(c, dist, 1), "field", "BoxHeader.Size") {
+					continue
+				}
+				n++
+				key := SSAFuncName(f) + ":Seek(relative)"
+				lb, ok := lowerBoundAt(dist, b, 0)
+				if ok && lb >= 0 && !nonNegativeByTypeOnly(dist) {
+					r.OK("G-SEEK", key, c.Pos(call.Pos()), "the distance is tested to be non-negative before the seek")
+				} else {
+					r.Bad("G-SEEK", key, c.Pos(call.Pos()), "a relative seek by a distance computed from the declared box size as int64 is not preceded by a test that it is >= 0: a size of 2^63 or more moves the reader backwards (DecodeFile in lazy mode can loop forever)")
+				}
+			}
+		}
+	}
+	return n
+}
+
+// nonNegativeByTypeOnly: int64 values are never non-negative by type; used to make sure the bound came from a test.
+func nonNegativeByTypeOnly(v ssa.Value) bool { return nonNegative(v) }
